@@ -741,6 +741,50 @@ def check_children(task):
     return {"transitions": n, "histories": n, "viols": viols}
 
 
+# ------------------------------------------------------------------ caller dictionaries
+def check_caller_dicts(task):
+    """a dictionary handed in by the caller (nested or underscore form) is read, never written"""
+    from magpylib._src.style import get_style
+
+    _, fam, tier = task
+    if not hard_reset():
+        return {"harness": "cannot restore defaults baseline"}
+    factory = FAMILIES[fam]
+    viols, n = [], 0
+    for leaf in leaves_of(fam):
+        vals, _ = probe_values(lambda: factory().style, leaf, want=1)
+        if not vals:
+            continue
+        c, _b = vals[0]
+        us = leaf.replace(".", "_")
+        forms = {
+            "ctor_style": lambda d: factory(style=d).style,
+            "ctor_style+kw": lambda d: factory(style=d, style_opacity=0.5).style,
+            "style_setter": lambda d: setattr(factory(), "style", d),
+            "update_dict": lambda d: factory().style.update(d),
+            "update_dict+kw": lambda d: factory().style.update(d, opacity=0.5),
+            "copy_style": lambda d: factory().copy(style=d),
+            "copy_style+kw": lambda d: factory().copy(style=d, style_opacity=0.5),
+            "get_style_show_kwarg": lambda d: get_style(factory(), DS(), style=d),
+            "get_style_show_kwarg+kw": lambda d: get_style(factory(), DS(), style=d, style_opacity=0.5),
+            "defaults_update": lambda d: getp(DS(), f"display.style.{DEFAULT_FAMILY[fam]}").update(d),
+        }
+        for dname, make in (("nested", lambda: nested(leaf, copy.deepcopy(c))), ("underscore", lambda: {us: copy.deepcopy(c)})):
+            for fname, f in forms.items():
+                n += 1
+                d = make()
+                d0 = copy.deepcopy(d)
+                try:
+                    f(d)
+                except Exception:
+                    hard_reset()
+                    continue
+                if norm(d) != norm(d0):
+                    viols.append((f"caller-dict-changed:{fname}:{dname}", [fam, leaf, fname], f"{d0!r} -> {d!r}"))
+                hard_reset()
+    return {"transitions": n, "histories": n, "viols": viols}
+
+
 def leaves_of(fam):
     o = FAMILIES[fam]()
     out = []
@@ -763,6 +807,8 @@ def work(task):
             return check_pipeline(task)
         if task[0] == "children":
             return check_children(task)
+        if task[0] == "callerdict":
+            return check_caller_dicts(task)
         return check_leaf(task)
     except Exception as e:
         import traceback
@@ -780,6 +826,7 @@ def run(tier, seed):
         for leaf in leaves_of(fam):
             tasks.append((fam, leaf, tier))
     dtasks = [("default", k) for k in BASE()] + [("stylecopy", fam) for fam in FAMILIES]
+    dtasks += [("callerdict", fam, tier) for fam in ("magnet", "current", "sensor", "dipole", "triangle")]
     dtasks += [("children", fam, tier) for fam in ("magnet", "current", "sensor", "dipole", "triangle")]
     dtasks += [("pipeline", fam, tier) for fam in ("magnet", "current", "sensor", "dipole", "triangle", "triangularmesh", "base")]
     dtasks += [("pairs", fam, leaf, tier) for fam in FAMILIES for leaf in leaves_of(fam)
@@ -801,7 +848,7 @@ def run(tier, seed):
             samples.append({"family": t[0], "leaf": t[1], "values": r["values"], "invalid": r["bad"]})
         for kind, steps, detail in r["viols"]:
             tname = f"{t[0]}.{t[1]}" if t[0] != "pairs" else f"{t[1]}.{t[2]}"
-            if t[0] in ("pipeline", "children"):
+            if t[0] in ("pipeline", "children", "callerdict"):
                 tname = f"{t[1]}.{steps[1]}"
             viols.append({"key": f"C20|{tname}|{kind}",
                           "what": f"{tname}: {kind} history={steps} {detail}",
